@@ -1365,6 +1365,281 @@ def oracle_growth(ctx, budget):
     return count
 
 
+# ------------------------------------------------------------------ oracle 4: functional interface and _Optimizers objects
+def noninvolutive_perms(rng, n):
+    """Rotation, two appended scans, random: none is an involution, so sorting twice is not the identity."""
+    rot = np.roll(np.arange(n), n // 3)
+    scans = np.concatenate([np.arange(0, n, 2), np.arange(1, n, 2)])
+    rnd = rng.permutation(n)
+    while (rnd[rnd] == np.arange(n)).all():
+        rnd = rng.permutation(n)
+    out = [('rotation', rot), ('two-scans', scans), ('random', rnd)]
+    assert all(not (q[q] == np.arange(n)).all() for _, q in out)
+    return out
+
+
+def defining_class(method, two_d=False):
+    """The algorithm class of the module that defines `method` (what _get_function instantiates as helper fitter)."""
+    import importlib
+    pkg = 'pybaselines.two_d' if two_d else 'pybaselines'
+    for mod in ('whittaker', 'spline', 'morphological', 'polynomial', 'classification', 'smooth', 'misc'):
+        try:
+            module = importlib.import_module(f'{pkg}.{mod}')
+        except ImportError:
+            continue
+        klass = getattr(module, '_' + mod.capitalize(), None)
+        if klass is not None and method in klass.__dict__:
+            return klass
+    return None
+
+
+class HelperWatch:
+    """Records, at every call of the wrapped method (on whatever fitter object the optimizer built), the fitter's x
+    (and z), its sort order, the data and the keyword arguments."""
+
+    def __init__(self, klass, name):
+        self.log = []
+
+        def make(orig):
+            def wrapper(fitter, data=None, *args, **kwargs):
+                self.log.append({'type': type(fitter).__name__, 'x': None if fitter.x is None else np.array(fitter.x, copy=True),
+                                 'z': np.array(fitter.z, copy=True) if getattr(fitter, 'z', None) is not None else None,
+                                 'order': fitter._sort_order, 'data': np.array(data, copy=True)})
+                return orig(fitter, data, *args, **kwargs)
+            return wrapper
+        self.patch = Patched(klass, name, make)
+
+    def __enter__(self):
+        self.patch.__enter__()
+        return self
+
+    def __exit__(self, *a):
+        self.patch.__exit__(*a)
+
+
+def helper_ok_1d(entry, x):
+    """The helper's x is the sorted x and its sort order maps the caller's order onto it."""
+    if entry['x'] is None or not same(entry['x'], np.sort(x, kind='mergesort')):
+        return False
+    o = entry['order']
+    return same(x if o is None else x[o], entry['x'])
+
+
+def helper_ok_2d(entry, x, z):
+    if not (same(entry['x'], np.sort(x)) and same(entry['z'], np.sort(z))):
+        return False
+    o = entry['order']
+    X, Z = np.meshgrid(x, z, indexing='ij')
+    Xs, Zs = np.meshgrid(entry['x'], entry['z'], indexing='ij')
+    if o is None:
+        return same(X, Xs) and same(Z, Zs)
+    return same(X[o], Xs) and same(Z[o], Zs)
+
+
+def oracle_interfaces(ctx, budget):
+    import pybaselines.optimizers as opt1
+    import pybaselines.two_d.optimizers as opt2
+    from pybaselines import Baseline, Baseline2D
+    rng = np.random.default_rng(ctx.seed + 131)
+    prng = random.Random(ctx.seed + 131)
+    count = 0
+
+    def cmp_params(pa, pb):
+        """Same keys; arrays bit-identical (lists of arrays compared element-wise)."""
+        if set(pa) != set(pb):
+            return False
+        for k_ in pa:
+            a, b_ = pa[k_], pb[k_]
+            if isinstance(a, dict):
+                if not cmp_params(a, b_):
+                    return False
+            elif isinstance(a, (list, tuple)):
+                if len(a) != len(b_) or not all(same(u, v) for u, v in zip(a, b_)):
+                    return False
+            elif not same(a, b_):
+                return False
+        return True
+
+    with warnings.catch_warnings():
+        warnings.simplefilter('ignore')
+        # ---- 1-D: functional interface and _Optimizers objects against Baseline objects and direct fits
+        collab_names = COLLAB_1D if budget > 1 else COLLAB_1D[ctx.seed % 3::3]
+        for mi, method in enumerate(collab_names):
+            n = prng.choice([33, 46])
+            xs = np.sort(rng.uniform(0, 60, n)) + np.arange(n) * 1e-3
+            ys = M.make_y(rng, xs)
+            pname, perm = noninvolutive_perms(rng, n)[mi % 3]
+            x, y = xs[perm], ys[perm]
+            data = np.vstack([y, y * 1.2 + 1, y + rng.normal(0, 0.2, n)])
+            kw = dict(M.KW_1D[method])
+            if method not in NO_LOOP:
+                kw.update(tol=1e-3, max_iter=3)
+            avg = bool(mi % 2)
+            ref_b, ref_p = Baseline(x).collab_pls(data, average_dataset=avg, method=method, method_kwargs=dict(kw))
+            klass = defining_class(method)
+            for iface in ('functional', 'object'):
+                call = {'kind': 'oracle4-collab', 'method': method, 'interface': iface, 'permutation': pname, 'n': n,
+                        'average_dataset': avg, 'seed': ctx.seed}
+                key = f'collab:{method}:1d:{iface}-interface'
+                what = (f'{"pybaselines.optimizers.collab_pls(..., x_data=x)" if iface == "functional" else "optimizers._Optimizers(x).collab_pls"}'
+                        f'(method={method!r}, average_dataset={avg}) on x permuted by a {pname}')
+                try:
+                    with HelperWatch(klass, method) as hw:
+                        if iface == 'functional':
+                            b, p = opt1.collab_pls(data, average_dataset=avg, method=method, method_kwargs=dict(kw), x_data=x)
+                        else:
+                            b, p = opt1._Optimizers(x).collab_pls(data, average_dataset=avg, method=method, method_kwargs=dict(kw))
+                except Exception as exc:  # noqa
+                    ctx.fail(key + ':raises', f'{what} raised {type(exc).__name__}: {exc}', call)
+                    continue
+                count += 1
+                ctx.case(('oracle4-collab', method, iface, pname), nontrivial=True, kind=f'oracle4:collab:{iface}')
+                if not hw.log or not all(helper_ok_1d(e, x) for e in hw.log):
+                    ctx.fail(key + ':helper-x', f'{what}: the fitter the wrapped method runs on does not hold the sorted x with a sort order '
+                             'that maps the caller\'s order onto it', call)
+                if not (same(b, ref_b) and cmp_params(p, ref_p)):
+                    ctx.fail(key + ':differs-from-Baseline', f'{what} differs from Baseline(x).collab_pls with the same arguments '
+                             f'(max abs diff {np.abs(b - ref_b).max():.3g})', call)
+                direct = dict(M.KW_1D[method])
+                direct['weights'] = np.array(p['average_weights'], copy=True)
+                if 'average_alpha' in p:
+                    direct['alpha'] = np.array(p['average_alpha'], copy=True)
+                if method not in NO_LOOP:
+                    direct.update(tol=np.inf, max_iter=2)
+                if method in ('brpls', 'pspline_brpls'):
+                    direct['tol_2'] = np.inf
+                if method == 'fabc':
+                    direct['weights_as_mask'] = True
+                bb = getattr(Baseline(x), method)(data[1], **direct)[0]
+                if not same(bb, b[1]):
+                    ctx.fail(key + ':recomposition', f'{what}: row 1 differs from Baseline(x).{method}(row, weights=average_weights, tol=inf) '
+                             f'by {np.abs(bb - b[1]).max():.3g}', call)
+        for k, (meth, mkw) in enumerate([('modpoly', {}), ('imodpoly', {'num_std': 1.5}), ('modpoly', {'mask_initial_peaks': True})]):
+            n = prng.choice([38, 51])
+            xs = np.sort(rng.uniform(0, 60, n)) + np.arange(n) * 1e-3
+            ys = M.make_y(rng, xs)
+            pname, perm = noninvolutive_perms(rng, n)[(k + ctx.seed) % 3]
+            x, y = xs[perm], ys[perm]
+            w = None if k % 2 else rng.uniform(0.5, 1.5, n)
+            po = [None, 2, (1, 3)][k % 3]
+            klass = defining_class(meth)
+            for iface in ('functional', 'object'):
+                call = {'kind': 'oracle4-minmax', 'method': meth, 'interface': iface, 'permutation': pname, 'n': n, 'seed': ctx.seed}
+                key = f'minmax:{meth}:{iface}-interface'
+                what = (f'{"pybaselines.optimizers.adaptive_minmax(..., x_data=x)" if iface == "functional" else "optimizers._Optimizers(x).adaptive_minmax"}'
+                        f'(method={meth!r}, method_kwargs={mkw}) on x permuted by a {pname}')
+                with HelperWatch(klass, meth) as hw:
+                    args = dict(poly_order=po, method=meth, weights=None if w is None else w.copy(), constrained_fraction=(0.1, 0.2),
+                                constrained_weight=(50.0, 70.0), method_kwargs=dict(mkw))
+                    b, p = (opt1.adaptive_minmax(y, x_data=x, **args) if iface == 'functional' else opt1._Optimizers(x).adaptive_minmax(y, **args))
+                count += 1
+                ctx.case(('oracle4-minmax', meth, iface, pname), nontrivial=True, kind=f'oracle4:minmax:{iface}')
+                if not hw.log or not all(helper_ok_1d(e, x) for e in hw.log):
+                    ctx.fail(key + ':helper-x', f'{what}: the fitter the wrapped method runs on does not hold the sorted x with a matching sort order', call)
+                fits = [getattr(Baseline(x), meth)(y, poly_order=int(o), weights=np.array(ww, copy=True), **mkw)[0]
+                        for o in p['poly_order'] for ww in (p['weights'], p['constrained_weights'])]
+                if not same(np.maximum.reduce(fits), b):
+                    ctx.fail(key + ':recomposition', f'{what} is not the point-wise maximum of the four Baseline(x).{meth} fits defined by the '
+                             f'reported poly orders and weight arrays (max abs diff {np.abs(np.maximum.reduce(fits) - b).max():.3g})', call)
+        for k, (method, kw) in enumerate([('asls', {'lam': 1e3}), ('modpoly', {'poly_order': 3}), ('mor', {'half_window': 4}),
+                                          ('pspline_arpls', {'num_knots': 8, 'lam': 10}), ('fastchrom', {'half_window': 4})]):
+            n = prng.choice([40, 53])
+            xs = np.sort(rng.uniform(0, 60, n)) + np.arange(n) * 1e-3
+            ys = M.make_y(rng, xs)
+            pname, perm = noninvolutive_perms(rng, n)[(k + ctx.seed) % 3]
+            x, y = xs[perm], ys[perm]
+            b2 = getattr(Baseline(x), method)(y, **kw)[0]
+            for iface in ('functional', 'object'):
+                call = {'kind': 'oracle4-custom', 'method': method, 'interface': iface, 'permutation': pname, 'n': n, 'seed': ctx.seed}
+                b, p = (opt1.custom_bc(y, x_data=x, method=method, method_kwargs=dict(kw)) if iface == 'functional'
+                        else opt1._Optimizers(x).custom_bc(y, method=method, method_kwargs=dict(kw)))
+                count += 1
+                ctx.case(('oracle4-custom', method, iface, pname), nontrivial=True, kind=f'oracle4:custom:{iface}')
+                if not same(b, b2):
+                    ctx.fail(f'custom_bc:identity:{method}:{iface}-interface', f'custom_bc through the {iface} interface (method={method!r}, x permuted by a '
+                             f'{pname}) differs from Baseline(x).{method} by {np.abs(b - b2).max():.3g}', call)
+        for k, (method, kw, rngv) in enumerate([('asls', {}, (2, 4, 1)), ('modpoly', {}, (1, 3, 1)), ('pspline_asls', {'num_knots': 8}, (0, 2, 1))]):
+            n = prng.choice([40, 53])
+            xs = np.sort(rng.uniform(0, 60, n)) + np.arange(n) * 1e-3
+            ys = M.make_y(rng, xs)
+            pname, perm = noninvolutive_perms(rng, n)[(k + ctx.seed) % 3]
+            x, y = xs[perm], ys[perm]
+            args = dict(method=method, side=['both', 'left', 'right'][k % 3], width_scale=0.2, min_value=rngv[0], max_value=rngv[1],
+                        step=rngv[2], method_kwargs=dict(kw))
+            rb, rp = Baseline(x).optimize_extended_range(y, **args)
+            for iface in ('functional', 'object'):
+                call = {'kind': 'oracle4-extended', 'method': method, 'interface': iface, 'permutation': pname, 'n': n, 'seed': ctx.seed}
+                b, p = (opt1.optimize_extended_range(y, x_data=x, **args) if iface == 'functional'
+                        else opt1._Optimizers(x).optimize_extended_range(y, **args))
+                count += 1
+                ctx.case(('oracle4-extended', method, iface, pname), nontrivial=True, kind=f'oracle4:extended:{iface}')
+                if not (same(b, rb) and cmp_params(p, rp)):
+                    ctx.fail(f'extended:{method}:{iface}-interface', f'optimize_extended_range through the {iface} interface (method={method!r}, x permuted '
+                             f'by a {pname}) differs from Baseline(x).optimize_extended_range (max abs diff {np.abs(b - rb).max():.3g})', call)
+        # ---- 2-D: two_d.optimizers._Optimizers(x, z) against Baseline2D(x, z) and direct fits
+        names2 = COLLAB_2D if budget > 1 else COLLAB_2D[ctx.seed % 4::4]
+        for mi, method in enumerate(names2):
+            m_, n_ = 11, 12
+            xs, zs, ysort = M.make_z2d(rng, m_, n_)
+            px = noninvolutive_perms(rng, m_)[mi % 3][1] if mi % 4 != 3 else np.arange(m_)
+            pz = noninvolutive_perms(rng, n_)[(mi + 1) % 3][1] if mi % 4 != 2 else np.arange(n_)
+            x, z = xs[px], zs[pz]
+            y = ysort[px][:, pz]
+            data = np.array([y, y * 1.2 + 1])
+            kw = dict(M.KW_2D[method])
+            kw.update(tol=1e-3, max_iter=3)
+            avg = bool(mi % 2)
+            call = {'kind': 'oracle4-collab2d', 'method': method, 'average_dataset': avg, 'x_permuted': mi % 4 != 3, 'z_permuted': mi % 4 != 2,
+                    'seed': ctx.seed}
+            key = f'collab:{method}:2d:object-interface'
+            what = f'two_d.optimizers._Optimizers(x, z).collab_pls(method={method!r}, average_dataset={avg}) on permuted axes'
+            ref_b, ref_p = Baseline2D(x, z).collab_pls(data, average_dataset=avg, method=method, method_kwargs=dict(kw))
+            try:
+                with HelperWatch(defining_class(method, True), method) as hw:
+                    b, p = opt2._Optimizers(x, z).collab_pls(data, average_dataset=avg, method=method, method_kwargs=dict(kw))
+            except Exception as exc:  # noqa
+                ctx.fail(key + ':raises', f'{what} raised {type(exc).__name__}: {exc}', call)
+                continue
+            count += 1
+            ctx.case(('oracle4-collab2d', method, avg), nontrivial=True, kind='oracle4:collab2d:object')
+            if not hw.log or not all(helper_ok_2d(e, x, z) for e in hw.log):
+                ctx.fail(key + ':helper-x', f'{what}: the fitter the wrapped method runs on does not hold the sorted x / z with matching sort orders', call)
+            if not (same(b, ref_b) and cmp_params(p, ref_p)):
+                ctx.fail(key + ':differs-from-Baseline2D', f'{what} differs from Baseline2D(x, z).collab_pls (max abs diff {np.abs(b - ref_b).max():.3g})', call)
+            direct = dict(M.KW_2D[method])
+            direct.update(weights=np.array(p['average_weights'], copy=True), tol=np.inf, max_iter=2)
+            if 'average_alpha' in p:
+                direct['alpha'] = np.array(p['average_alpha'], copy=True)
+            if method in ('brpls', 'pspline_brpls'):
+                direct['tol_2'] = np.inf
+            bb = getattr(Baseline2D(x, z), method)(data[1], **direct)[0]
+            if not same(bb, b[1]):
+                ctx.fail(key + ':recomposition', f'{what}: entry 1 differs from Baseline2D(x, z).{method}(entry, weights=average_weights, tol=inf) '
+                         f'by {np.abs(bb - b[1]).max():.3g}', call)
+        for k, meth in enumerate(['modpoly', 'imodpoly']):
+            m_, n_ = 10, 12
+            xs, zs, ysort = M.make_z2d(rng, m_, n_)
+            px = noninvolutive_perms(rng, m_)[(k + ctx.seed) % 3][1]
+            pz = noninvolutive_perms(rng, n_)[(k + 1 + ctx.seed) % 3][1]
+            x, z, y = xs[px], zs[pz], ysort[px][:, pz]
+            call = {'kind': 'oracle4-minmax2d', 'method': meth, 'seed': ctx.seed}
+            key = f'minmax2d:{meth}:object-interface'
+            what = f'two_d.optimizers._Optimizers(x, z).adaptive_minmax(method={meth!r}) on permuted axes'
+            with HelperWatch(defining_class(meth, True), meth) as hw:
+                b, p = opt2._Optimizers(x, z).adaptive_minmax(y, poly_order=(1, 2), method=meth, constrained_fraction=(0.1, 0.2),
+                                                              constrained_weight=(50.0, 70.0))
+            count += 1
+            ctx.case(('oracle4-minmax2d', meth), nontrivial=True, kind='oracle4:minmax2d:object')
+            if not hw.log or not all(helper_ok_2d(e, x, z) for e in hw.log):
+                ctx.fail(key + ':helper-x', f'{what}: the helper fitter does not hold the sorted x / z with matching sort orders', call)
+            fits = [getattr(Baseline2D(x, z), meth)(y, poly_order=int(o), weights=np.array(ww, copy=True))[0]
+                    for o in p['poly_order'] for ww in (p['weights'], p['constrained_weights'])]
+            if not same(np.maximum.reduce(fits), b):
+                ctx.fail(key + ':recomposition', f'{what} is not the point-wise maximum of the four Baseline2D fits defined by the reported '
+                         f'orders and weight arrays (max abs diff {np.abs(np.maximum.reduce(fits) - b).max():.3g})', call)
+    return count
+
+
 def run(ctx):
     ctx.rule = ('collab trace: every accepted wrapped method (1-D 28, 2-D 20) x average_dataset x {real method with valid keys incl. '
                 'tol/max_iter/weights/alpha/tol_2/weights_as_mask, probe with a random key subset in random order}; '
@@ -1394,11 +1669,17 @@ def run(ctx):
     n = oracle(ctx, budget)
     n += oracle_variants(ctx, budget)
     n += oracle_growth(ctx, budget)
+    n += oracle_interfaces(ctx, budget)
     ctx.note(f'direct oracle: {n} recomposition comparisons on real methods, bit-exact (budget x{budget})')
     ctx.note('oracle 2: recomposition identities with non-default wrapped-method parameters per family (mask_initial_peaks, '
              'use_original, cost functions, threshold, diff_order, spline_degree, ...), sorted / unsorted x, with / without user weights; '
              'at the wrapped-call boundary every sub-call\'s array arguments are snapshotted on entry, must be unchanged on return, '
              'bit-identical across the four fits / step-2 calls / sweep and to the reported arrays; recomputation uses pristine copies')
+    ctx.note('oracle 4: every recomposition identity also through the functional interface (pybaselines.optimizers.<name>(..., x_data=x)) and '
+             'through optimizers._Optimizers(x) / two_d.optimizers._Optimizers(x, z) objects (which build a helper fitter in _get_function) on '
+             'x / z permuted by NON-involutive permutations (rotation, two appended scans, random), compared with Baseline / Baseline2D '
+             'objects and direct fits; at every wrapped call the fitter\'s x (z) must be the sorted values and its sort order must map '
+             'the caller\'s order onto them')
     ctx.note('growth: 2-D adaptive_minmax reported arrays for the four sort-order layouts x fraction / weight forms (scalar, pair, four) '
              'with ceil in binary64; lam exponent grid captured inside np.logspace and compared bit-for-bit (count, values, exact end '
              'point, step flip, raise on a negative count), lam == 10.0 ** exponent checked on the Python side; selected grid index; '
@@ -1415,7 +1696,9 @@ def replay(rep):
     print('replay case:', case)
     ctx = Ctx(PROP, 'quick', case.get('seed', 0))
     kind = case.get('kind', '')
-    if kind.startswith('oracle3'):
+    if kind.startswith('oracle4'):
+        oracle_interfaces(ctx, 3)
+    elif kind.startswith('oracle3'):
         oracle_growth(ctx, 3)
     elif kind == 'minmax2d':
         minmax2d_cases(ctx)
